@@ -50,6 +50,8 @@ func init() {
 			`<% let f = fn(x) { return x + 1 } %><%= f(1) %><%= f(2) %>`,
 			`<% contentFor("c") { %>[<%= n %>]<% } %><%= contentOf("c") %><%= contentOf("c", {n: 9}) %>`,
 			`<%= partial("nested") %><%= partial("p.html", {who: "a", layout: "lay2"}) %>`,
+			// partials that include themselves (one text executing while another execution of the same text is pending)
+			`<%= partial("tree", {n: 3}) %>`, `<%= partial("tree", {n: 2}) %>|<%= partial("tree", {n: 1}) %>`, `<%= partial("ping", {n: 4}) %>`,
 		)
 		for i := 0; i < 40; i++ {
 			parts := map[string]string{}
